@@ -399,12 +399,31 @@ pub fn from_rw_lock(p: *const host::sync::RwLock<Counter>) -> Reference<dyn Bump
 pub fn again(concrete: Reference<dyn Bump>) -> Reference<dyn Bump> {{
     {again}
 }}
+pub struct Borrowing<'a>(pub &'a core::cell::Cell<u32>);
+impl<'a> Bump for Borrowing<'a> {{
+    fn bump(&mut self) {{
+        self.0.set(self.0.get() + 1);
+    }}
+    fn value(&self) -> u32 {{
+        self.0.get()
+    }}
+}}
+pub fn borrowing<'a>(p: *mut Borrowing<'a>) -> Reference<dyn Bump + 'a> {{
+    let concrete = unsafe {{ Reference::from_ptr(p) }};
+    {borrowing}
+}}
+pub fn borrowing_rc<'a>(x: Borrowing<'a>) -> Reference<dyn Bump + 'a> {{
+    let concrete = rc_ref_cell_reference(x);
+    {borrowing_rc}
+}}
 "#,
         head = head,
         ptr = conv("concrete"),
         rc = conv("concrete"),
         rw = conv("concrete"),
         again = conv("concrete"),
+        borrowing = conv("concrete"),
+        borrowing_rc = conv("concrete"),
     )
 }
 fn caller_compiles(no_std: bool, features: bool) -> CheckResult {
